@@ -62,7 +62,9 @@ StringsUpTo(A, n) == IF n = 0 THEN {<<>>}
 Keys(m) == {kv[1] : kv \in m}
 Vals(m) == {kv[2] : kv \in m}
 Has(m, k) == \E kv \in m : kv[1] = k
-Get(m, k) == (CHOOSE kv \in m : kv[1] = k)[2]
+\* total: <<0>> (no string of the models or traces contains the code 0) for a missing key, so that
+\* the trace validator never crashes on an inconsistent logged state
+Get(m, k) == IF \E kv \in m : kv[1] = k THEN (CHOOSE kv \in m : kv[1] = k)[2] ELSE <<0>>
 Put(m, k, v) == {kv \in m : kv[1] # k} \cup {<<k, v>>}
 PutAll(m, ks, v) == {kv \in m : kv[1] \notin ks} \cup {<<k, v>> : k \in ks}
 IsMap(m) == \A a, b \in m : a[1] = b[1] => a = b
